@@ -65,6 +65,32 @@ theorem c01_wordcount (D : Bytes → Bytes) (hD : ∀ x, (D x).length = 32) (e :
   refine ⟨?_, spec_indices_lt D e m hlen hm (hD e)⟩
   rw [spec_indices_length D e m hlen hm (hD e)]; omega
 
+/-- the words are joined by exactly one separator (U+3000 for Japanese, U+0020 otherwise), with
+no leading, trailing or doubled separator: splitting the sentence at the separator gives back
+exactly the `3·len/4` words, none of them empty -/
+theorem c01_shape (D : Bytes → Bytes) (hD : ∀ x, (D x).length = 32) (L : Lang) (e : Bytes) (hv : ValidEntLen e.length) :
+    splitOn L.sep (Spec.sentence D L e) = (Spec.indices D e).map L.word ∧
+    (splitOn L.sep (Spec.sentence D L e)).length = 3 * e.length / 4 ∧
+    ∀ w ∈ splitOn L.sep (Spec.sentence D L e), w ≠ [] ∧ w ∈ L.words := by
+  obtain ⟨hl, hlt⟩ := c01_wordcount D hD e hv
+  have hin : ∀ w ∈ (Spec.indices D e).map L.word, w ∈ L.words := by
+    intro w hw
+    obtain ⟨i, hi, rfl⟩ := List.mem_map.mp hw
+    exact word_mem L i (hlt i hi)
+  have hne : (Spec.indices D e).map L.word ≠ [] := by
+    intro h; have := congrArg List.length h
+    rw [List.length_map, hl] at this
+    rcases hv with h | h | h | h | h <;> rw [h] at this <;> simp at this
+  have hs : splitOn L.sep (Spec.sentence D L e) = (Spec.indices D e).map L.word :=
+    split_join L.sep _ hne (fun w hw => sep_not_mem_word L w (hin w hw))
+  refine ⟨hs, by rw [hs, List.length_map, hl], ?_⟩
+  rw [hs]
+  exact fun w hw => ⟨wordOk_ne_nil (words_wordOk L w (hin w hw)), hin w hw⟩
+
+/-- non-vacuity: the hypotheses are satisfiable -/
+example : ValidEntLen (List.replicate 16 (0 : UInt8)).length ∧ ValidEntLen (List.replicate 32 (255 : UInt8)).length := by decide
+
 #print axioms c01_encode
+#print axioms c01_shape
 #print axioms c01_wordcount
 end Bip39V
